@@ -6,6 +6,7 @@ import vlib
 from vlib import CheckError
 
 CLAUSE = {1: "envelope", 2: "spaced-refused", 3: "gc-visible", 4: "not-independent", 5: "concurrent",
+          9: "concurrent-first-messages-envelope", 10: "burst-during-collection-pass-envelope",
           6: "idle-entry-not-forgotten", 7: "call-does-not-return", 8: "idle-entry-not-forgotten", 11: "envelope", 12: "spaced-refused", 14: "not-independent"}
 CONC_SIG = "concurrent-new-address-insert-race"
 
@@ -16,6 +17,8 @@ class Prop:
     vo_props = ["theories/Props/C19.vo"]
     k_names = ["decisions(ratelimiter.Allow/cleanup under VerifSetClock == Ratelimit.Model.step, with passes, without passes, address alone)",
                "concurrent(k callers of Allow for one new address held at the clock call; observed admissions judged by Spec.envelope_chk)",
+               "forced-schedules(collection pass held from the harness at its per-entry clock read: k callers for a new and for a "
+               "just-forgotten address released together; bursts fired while the pass is held; envelope judged by Spec.envelope_chk)",
                "liveness(real collector goroutine of Init: table emptied after an idle gap, then first inserts from concurrent callers with "
                "the clock read inside Allow's insert section held for more than one ticker period; every Allow and Close returns under a watchdog)",
                "device(real device under load, cookie exchange done, one address flooding while another sends 60 ms apart, then the flood "
@@ -46,6 +49,8 @@ class Prop:
         self.dev_index = None
         self.live_file = None
         self.live_index = None
+        self.forced_file = None
+        self.forced_index = None
 
     def _load(self, d):
         meta = json.load(open(os.path.join(d, "cases.json")))
@@ -78,7 +83,13 @@ class Prop:
         self.live_file = os.path.join(self.dir, meta["live_file"]) if meta.get("live_file") else None
         if self.live_file:
             files = files + [self.live_file]
+        self.forced_index = meta.get("forced_index")
+        self.forced_file = os.path.join(self.dir, meta["forced_file"]) if meta.get("forced_file") else None
+        if self.forced_file:
+            files = files + [self.forced_file]
         self.extra_coverage = {}
+        if self.forced_index is not None:
+            self.extra_coverage["forced_schedules"] = [x["forced"]["summary"] for x in meta["cases"] if x.get("forced")]
         if self.live_index is not None:
             self.extra_coverage["real_collector_liveness"] = meta["cases"][self.live_index]["live"]["summary"]
         c = meta["cases"][self.conc_index]["conc"] if self.conc_index is not None else None
@@ -93,7 +104,8 @@ class Prop:
         return files, meta["cases"]
 
     @staticmethod
-    def _fails(shards, files, outputs, conc_file, conc_index, dev_file=None, dev_index=None, live_file=None, live_index=None):
+    def _fails(shards, files, outputs, conc_file, conc_index, dev_file=None, dev_index=None, live_file=None, live_index=None,
+               forced_file=None, forced_index=None):
         res = []
         for s, f in zip(shards, files):
             for (idx, kind, clause, pos) in vlib.parse_n_tuples(vlib.coq_value(outputs[f], "bad")):
@@ -108,16 +120,19 @@ class Prop:
         if live_file and live_file in outputs:
             for (idx, kind, clause, pos) in vlib.parse_n_tuples(vlib.coq_value(outputs[live_file], "lbad")):
                 res.append({"case": live_index, "kind": kind, "clause": clause, "pos": pos})
+        if forced_file and forced_file in outputs:
+            for (idx, kind, clause, pos) in vlib.parse_n_tuples(vlib.coq_value(outputs[forced_file], "fbad")):
+                res.append({"case": forced_index + idx, "kind": kind, "clause": clause, "pos": pos})
         return res
 
     def failures(self, outputs, files, cases):
         return self._fails(self.shards, files, outputs, self.conc_file, self.conc_index, self.dev_file, self.dev_index,
-                           self.live_file, self.live_index)
+                           self.live_file, self.live_index, self.forced_file, self.forced_index)
 
     def stats(self, outputs):
         tot = [0] * 9
         for f, o in outputs.items():
-            if f in (self.conc_file, self.dev_file, self.live_file):
+            if f in (self.conc_file, self.dev_file, self.live_file, self.forced_file):
                 continue
             v = vlib.parse_n_list(vlib.coq_value(o, "st"))
             tot = [a + b for a, b in zip(tot, v)]
@@ -139,25 +154,30 @@ class Prop:
                 return {"dev": {"family": c["dev"].get("family", "v4")}, "gen": "device-level"}
             if c.get("live") is not None:
                 return {"live": {}, "gen": "real-collector-liveness"}
+            if c.get("forced"):
+                return {"forced": {"name": c["forced"]["name"]}, "gen": "forced-" + c["forced"]["name"]}
             return {"addrs": c["addrs"], "ops": c["ops"], "pa": c.get("pa", 0)}
         json.dump([inp_of(c) for c in cases], open(inp, "w"))
         meta, files = self._run_go(["-replay", inp, "-out", d], d)
         cf = os.path.join(d, meta["conc_file"]) if meta.get("conc_file") else None
         df = os.path.join(d, meta["dev_file"]) if meta.get("dev_file") else None
         lf = os.path.join(d, meta["live_file"]) if meta.get("live_file") else None
-        outs = vlib.run_case_files(files + ([cf] if cf else []) + ([df] if df else []) + ([lf] if lf else []))
+        ff = os.path.join(d, meta["forced_file"]) if meta.get("forced_file") else None
+        outs = vlib.run_case_files(files + ([cf] if cf else []) + ([df] if df else []) + ([lf] if lf else []) + ([ff] if ff else []))
         self.last_rerun = meta["cases"]
-        res = self._fails(meta["shards"], files, outs, cf, meta.get("conc_index"), df, meta.get("dev_index"), lf, meta.get("live_index"))
+        res = self._fails(meta["shards"], files, outs, cf, meta.get("conc_index"), df, meta.get("dev_index"), lf, meta.get("live_index"),
+                         ff, meta.get("forced_index"))
         # replayed sequential cases keep their order; the harness puts a concurrent case after them and device cases last
-        seq = lambda c: not c.get("conc") and not c.get("dev") and c.get("live") is None
+        seq = lambda c: not c.get("conc") and not c.get("dev") and c.get("live") is None and not c.get("forced")
         order = ([i for i, c in enumerate(cases) if seq(c)] + [i for i, c in enumerate(cases) if c.get("conc")] +
-                 [i for i, c in enumerate(cases) if c.get("dev")] + [i for i, c in enumerate(cases) if c.get("live") is not None])
+                 [i for i, c in enumerate(cases) if c.get("dev")] + [i for i, c in enumerate(cases) if c.get("forced")] +
+                 [i for i, c in enumerate(cases) if c.get("live") is not None])
         for f in res:
             f["case"] = order[f["case"]]
         return res
 
     def shrink_candidates(self, case):
-        if case.get("conc") or case.get("dev") or case.get("live") is not None:
+        if case.get("conc") or case.get("dev") or case.get("live") is not None or case.get("forced"):
             return
         ops = case["ops"]
         n = len(ops)
@@ -172,6 +192,8 @@ class Prop:
     def signature(self, case, f):
         if case.get("conc"):
             return CONC_SIG
+        if case.get("forced"):
+            return CLAUSE.get(f.get("clause"), "forced-clause%s" % f.get("clause"))
         if case.get("live") is not None:
             return "collector-" + CLAUSE.get(f.get("clause"), "clause%s" % f.get("clause"))
         if case.get("dev"):
@@ -179,6 +201,8 @@ class Prop:
         return "sequential-" + CLAUSE.get(f.get("clause"), "clause%s" % f.get("clause"))
 
     def nontrivial(self, c):
+        if c.get("forced"):
+            return bool(c["forced"].get("valid"))
         if c.get("live") is not None:
             return bool(c["live"].get("emptied_by_real_collector"))
         if c.get("conc"):
@@ -197,6 +221,8 @@ class Prop:
         return gc and len(adm) >= 2 and len(ref) >= 1
 
     def sample(self, c):
+        if c.get("forced"):
+            return {"gen": c.get("gen"), "forced": c["forced"]["summary"]}
         if c.get("live") is not None:
             return {"gen": c.get("gen"), "live": c["live"]["summary"]}
         if c.get("dev"):
@@ -217,7 +243,7 @@ def replay(path):
     case = obj.get("input") or obj
     fs = p.run_cases([case])
     obs = p.last_rerun[0]
-    print(json.dumps({"failures": fs, "observed": obs.get("conc") or (obs.get("dev") or {}).get("summary") or (obs.get("live") or {}).get("summary") or obs.get("obs")}))
+    print(json.dumps({"failures": fs, "observed": obs.get("conc") or (obs.get("dev") or {}).get("summary") or (obs.get("live") or {}).get("summary") or (obs.get("forced") or {}).get("summary") or obs.get("obs")}))
     if any(f["kind"] == 2 for f in fs):
         print("VIOLATION property=C19 replay=%s" % path)
         return 1
